@@ -33,7 +33,7 @@ package main
 //@   at call append#2: assert gcfg.Depth <= 0 && arg1[0].Name == gcfg.Counter && pcfg != nil && pcfg.Name == gcfg.Program && in(gcfg.Program, programs) && programs[gcfg.Program] == pcfg
 //@   at call append#3: assert minVersion == "" || version.Compare(minVersion, arg1[0]) <= 0
 //@   loop 2: invariant forall k string :: in(k, programs) ==> programs[k] != nil && programs[k].Name == k && allocated(programs[k])
-//@   loop 3: invariant ucfg != nil
+//@   loop 3: invariant ucfg != nil && (forall k string :: in(k, programs) ==> programs[k] != nil)
 //@   loop 4: invariant ucfg != nil && p != nil
 //@   loop 5: invariant ucfg != nil && p != nil && 0 <= i && i <= rangeindex+1 && i <= len(versions)
 //@   modifies heap, $nreal
@@ -45,16 +45,16 @@ package main
 // copy), and the list returned is the one handed to the final semver.Sort.
 //@ contract padVersions
 //@   at call Clone#1: after ghost $nreal = len(result)
-//@   loop 1: invariant len(versions) == $nreal && all != nil
-//@   loop 2: invariant len(versions) >= $nreal && all != nil
-//@   loop 3: invariant len(versions) >= $nreal && all != nil
-//@   loop 4: invariant len(versions) >= $nreal && all != nil
-//@   loop 5: invariant len(versions) >= $nreal && all != nil
-//@   loop 6: invariant len(versions) >= $nreal && all != nil && 0 <= nextPrerelease
-//@   loop 7: invariant len(versions) >= $nreal && all != nil && 0 <= i
+//@   loop 1: invariant len(versions) == $nreal && (fresh(versions) || versions == nil) && all != nil
+//@   loop 2: invariant len(versions) >= $nreal && (fresh(versions) || versions == nil) && all != nil
+//@   loop 3: invariant len(versions) >= $nreal && (fresh(versions) || versions == nil) && all != nil
+//@   loop 4: invariant len(versions) >= $nreal && (fresh(versions) || versions == nil) && all != nil
+//@   loop 5: invariant len(versions) >= $nreal && (fresh(versions) || versions == nil) && all != nil
+//@   loop 6: invariant len(versions) >= $nreal && (fresh(versions) || versions == nil) && all != nil && 0 <= nextPrerelease
+//@   loop 7: invariant len(versions) >= $nreal && (fresh(versions) || versions == nil) && all != nil && 0 <= i
 //@   at call Sort#2: assert len(arg0) >= $nreal && issub(arg0, versions, 0, len(versions))
 //@   allows panic#1: documented "can't happen": the latest release is a canonical semantic version
-//@   modifies heap, $nreal
+//@   modifies $nreal
 
 //@ contract parseSemver
 //@   modifies nothing
